@@ -13,6 +13,9 @@ CLAIMED = {
  "C08": ("model_checking", "two-run (2-safety) bounded symbolic execution: full delivery vs. chunked delivery of the same symbolic content",
          "Metadata, ICC bytes/error-ness and success outcome are proved identical between a fully delivering reader and readers delivering 1,2,3,7-byte chunks (with and without data+EOF), for skeleton files with symbolic fields, small arbitrary inputs, and the ICC reader behind bufio.",
          "Trusted: executor, z3, deterministic zlib stub. Schedules are the enumerated fixed chunk sizes, not all compositions; sizes around 4096 are outside the bound.", "DESIGN.md 5 C08"),
+ "C09": ("model_checking", "bounded symbolic execution with engine-level panic / allocation-budget / instruction-budget obligations; symbolic allocation sizes decided by satisfiability queries",
+         "For N arbitrary symbolic bytes per loader and for structured inputs whose every length, count, offset and size field is an unconstrained symbolic word, no path lets a panic escape, exceeds 16N+128KiB allocated bytes, or exceeds 4000N+200000 SSA instructions; an over-budget allocation is found as the model of a single query (all 2^32 values of a length field at once).",
+         "Trusted: executor's allocation accounting (sizes from go/types for gc/amd64, append growth approximated), z3, zlib stub (its output excluded). SSA instruction count is the proxy for time.", "DESIGN.md 5 C09"),
  "C16": ("model_checking", "bounded symbolic execution of icc.ProfileReader (go/ssa -> SMT-LIB2 bit-vectors, z3)",
          "All 2^1024 headers carrying 'acsp' are covered by one symbolic 128-byte header; each Header field is a bit-vector identity against ICC.1:2010 Table 17 offsets; a header with any other signature is shown to be rejected.",
          "Trusted: executor, z3, stubs for fmt.Sprintf (format+argument terms compared) and time.Date (argument terms compared). Tag table is a fixed minimal one.", "DESIGN.md 5 C16"),
